@@ -388,6 +388,23 @@ def replay(ctx, mod, path):
         print("replay file has no program; it names what no longer checks:")
         print(json.dumps(j, indent=1)[:3000])
         return 0
+    comp = case.get("component") or ("SlotG" if "focus" in case and "slot list:" not in (case.get("detail") or "") and "corpus/SweepL" not in (case.get("name") or "") else
+                                     ("SweepL" if "focus" in case else None))
+    if comp in ("SlotG", "SweepL"):
+        # a program of a component language (docs/SLOTG.md, docs/SWEEPL.md): replayed by that component
+        import importlib
+        m = importlib.import_module("slotg" if comp == "SlotG" else "sweepl")
+        rc = m.replay_text(prog)
+        if rc == 1:
+            print("VIOLATION property=%s replay=%s" % (mod.PID, path))
+        return 1 if rc else 0
+    if (case.get("name") or "").endswith(".cc"):
+        for e in fixed_cc_replays(mod.PID):
+            print(e["detail"])
+            print("VIOLATION property=%s replay=%s" % (mod.PID, path))
+            return 1
+        print("the stand-alone replays of the repaired findings of %s pass on the current tree" % mod.PID)
+        return 0
     exe, log = runtime.build_main_harness()
     if not exe:
         print("harness does not build:", log[-2000:])
